@@ -2170,8 +2170,8 @@ impl HnswBackend {
 
         // Crash-safe ordering:
         // 1) Persist snapshot pointer while keeping full WAL segment list.
-        // 2) Compact WAL files.
-        // 3) Persist pruned WAL segment list.
+        // 2) Persist pruned WAL segment list, then unlink the compacted WAL files
+        //    (both inside `compact_old_wal_segments`).
         manifest.save(&manifest_path)?;
 
         // WAL Compaction: Delete old WAL segments that are fully captured in the snapshot.
@@ -2968,6 +2968,7 @@ impl HnswBackend {
     ) -> Result<usize> {
         let mut deleted_count = 0;
         let mut segments_to_keep = Vec::new();
+        let mut segments_to_delete: Vec<(String, PathBuf)> = Vec::new();
 
         if snapshot_last_wal_seq == 0 && snapshot_timestamp == 0 {
             warn!("snapshot has no sequence or timestamp; skipping WAL compaction for safety");
@@ -3058,33 +3059,15 @@ impl HnswBackend {
             }
 
             if all_entries_covered {
-                match std::fs::remove_file(&wal_path) {
-                    Ok(()) => {
-                        debug!(
-                            wal_segment = wal_name,
-                            wal_max_seq = max_seq,
-                            wal_max_ts = max_timestamp,
-                            snapshot_seq = snapshot_last_wal_seq,
-                            snapshot_ts = snapshot_timestamp,
-                            "deleted old WAL segment",
-                        );
-                        deleted_count += 1;
-                    }
-                    Err(e) if e.kind() == std::io::ErrorKind::NotFound => {
-                        warn!(
-                            wal_segment = wal_name,
-                            "WAL segment already missing (skipping)"
-                        );
-                    }
-                    Err(e) => {
-                        error!(
-                            wal_segment = wal_name,
-                            error = %e,
-                            "failed to delete old WAL segment",
-                        );
-                        segments_to_keep.push(wal_name.clone());
-                    }
-                }
+                debug!(
+                    wal_segment = wal_name,
+                    wal_max_seq = max_seq,
+                    wal_max_ts = max_timestamp,
+                    snapshot_seq = snapshot_last_wal_seq,
+                    snapshot_ts = snapshot_timestamp,
+                    "old WAL segment fully covered by snapshot; scheduling deletion",
+                );
+                segments_to_delete.push((wal_name.clone(), wal_path));
             } else {
                 segments_to_keep.push(wal_name.clone());
             }
@@ -3092,6 +3075,36 @@ impl HnswBackend {
 
         // Update manifest with remaining segments
         manifest.wal_segments = segments_to_keep;
+
+        if segments_to_delete.is_empty() {
+            return Ok(0);
+        }
+
+        // Crash safety: persist the pruned segment list BEFORE unlinking. Strict recovery
+        // treats a listed-but-missing segment as fatal, so the MANIFEST must never name a
+        // file that has already been removed. A crash after this point only leaks files.
+        manifest.save(data_dir.join("MANIFEST"))?;
+
+        for (wal_name, wal_path) in segments_to_delete {
+            match std::fs::remove_file(&wal_path) {
+                Ok(()) => {
+                    deleted_count += 1;
+                }
+                Err(e) if e.kind() == std::io::ErrorKind::NotFound => {
+                    warn!(
+                        wal_segment = wal_name,
+                        "WAL segment already missing (skipping)"
+                    );
+                }
+                Err(e) => {
+                    error!(
+                        wal_segment = wal_name,
+                        error = %e,
+                        "failed to delete old WAL segment (no longer referenced by MANIFEST)",
+                    );
+                }
+            }
+        }
 
         Ok(deleted_count)
     }
